@@ -168,6 +168,7 @@ fn main() {
         "replay" => cmd_replay(&args),
         "c13-child" => props::c13::child_main(&args),
         "miri" => props::miri::main(&args),
+        "c12-big" => props::codec::big_child(&args),
         _ => {
             eprintln!("usage: rlmon check <Cnn> [--tier quick|thorough] [--seed N] [--shards N] | replay <file>");
             2
